@@ -167,3 +167,85 @@ func vfH_C07_restart() {
 	}
 	vfReach("end")
 }
+
+// C07_history: a history of lock / re-lock / partial unlock / full unlock on a re-entrant hold
+// (persisted immediately) plus a plain hold on a second key; the instance is stopped after any
+// prefix of the history and restarted: the restored holds (key, LockId, depth) must be exactly
+// the live persisted ones.
+func init() { vfHarnesses["C07_history"] = vfH_C07_history }
+
+func vfH_C07_history() {
+	dir := vfFSDir()
+	env := vfNewEnv(1)
+	vfSetDBTime(env.db, vfBaseTime)
+	vfOpenAof(env, dir)
+	k1, k2 := vfKey(1), vfKey(2)
+	lockCmd := func(key [16]byte, id uint8) *protocol.LockCommand {
+		c := env.newCmd(protocol.COMMAND_LOCK, key, vfLockId(id))
+		c.Expried, c.ExpriedFlag, c.Count, c.Rcount = 1000, 0x0100, 0, 3
+		return c
+	}
+	unlockCmd := func(key [16]byte, id uint8, rcount uint8) *protocol.LockCommand {
+		c := env.newCmd(protocol.COMMAND_UNLOCK, key, vfLockId(id))
+		c.Rcount = rcount
+		return c
+	}
+	steps := vfRange("steps", 1, 6)
+	// the order of the middle operations is a choice, so that several interleavings of the two keys are covered
+	variant := vfChoice("variant", 2)
+	for s := 0; s < steps; s++ {
+		switch s {
+		case 0:
+			env.lock(0, lockCmd(k1, 1))
+		case 1:
+			env.lock(0, lockCmd(k1, 1)) // re-entrant: depth 2
+		case 2:
+			if variant == 0 {
+				env.lock(0, lockCmd(k2, 2))
+			} else {
+				env.lock(0, lockCmd(k1, 1)) // depth 3
+			}
+		case 3:
+			env.unlock(0, unlockCmd(k1, 1, 1)) // one level
+		case 4:
+			if variant == 0 {
+				env.unlock(0, unlockCmd(k1, 1, 1))
+			} else {
+				env.unlock(0, unlockCmd(k1, 1, 0)) // all remaining levels
+			}
+		case 5:
+			env.unlock(0, unlockCmd(k1, 1, 0))
+		}
+		vfDrainAof(env.db)
+	}
+	env.slock.aof.aofFile.Flush()
+	type held struct {
+		id    [16]byte
+		depth uint8
+	}
+	live := func(e *vfEnv, key [16]byte) (held, bool) {
+		hs := vfHolders(e.manager(key))
+		if len(hs) == 0 {
+			return held{}, false
+		}
+		return held{hs[0].command.LockId, hs[0].locked}, true
+	}
+	env2 := vfNewEnv(1)
+	vfSetDBTime(env2.db, vfBaseTime+2)
+	aof2 := env2.slock.aof
+	aof2.dataDir = dir
+	err, _ := aof2.LoadAofFiles([]string{"append.aof.1"}, vfBaseTime+2, func(filename string, aofFile *AofFile, lock *AofLock, firstLock bool) (bool, error) {
+		return true, aof2.LoadLock(lock)
+	})
+	vfAssert(err == nil, "C07: loading the log fails")
+	vfDrainAof(env2.db)
+	for _, key := range [2][16]byte{k1, k2} {
+		a, oka := live(env, key)
+		b, okb := live(env2, key)
+		vfAssert(oka == okb, "C07: a restart restored a hold that had been released, or lost one that was live and persisted")
+		if oka && okb {
+			vfAssert(a.id == b.id && a.depth == b.depth, "C07: a restored hold differs in LockId or re-entrant depth")
+		}
+	}
+	vfReach("end")
+}
